@@ -333,6 +333,10 @@ class PrimitiveEquationsSpecs:
     """Rescales and casts the given non-dimensional value to timedelta64."""
     base_unit = 's'  # return value is rounded down to nearest base_unit
     dt = self.scale.dimensionalize(value, units(base_unit)).m
+    # a whole number of base units may come back a few ulps short after a round
+    # trip through non-dimensional time; do not round those down a whole unit.
+    ulp = np.finfo(np.result_type(dt, np.float32)).eps
+    dt = np.floor(dt + 8 * ulp * np.maximum(np.abs(dt), 1))
     if isinstance(dt, np.ndarray):
       return dt.astype(f'timedelta64[{base_unit}]')
     else:
